@@ -62,6 +62,11 @@ PLAIN = [
     ("move-none", lambda g: g.move(F=100)), ("arc", lambda g: (g.set_resolution(1.0), g.trace.arc((2, 2), (2, 0)))),
     ("move_absolute-relative", lambda g: (g.set_distance_mode("relative"), g.move_absolute(x=1.5, y=2))),
     ("write-raw", lambda g: g.write("G4 P1   ")),
+    # comment text made of delimiters and their fragments: still exactly one comment, after the words (C09 owns what executes)
+    ("comment-delimiters", lambda g: g.comment("a ) ] } > */ **// ( [ /* b")),
+    ("move-comment-delimiters", lambda g: g.move(x=1.5, comment="x ) ] */ **// ))(( y")),
+    ("annotate-delimiters", lambda g: g.annotate("key", "*/ ) ] **//")),
+    ("halt-comment", lambda g: g.emergency_halt("stop ) */ now")),
 ]
 
 
@@ -264,6 +269,9 @@ def configs(tier):
     labels = [{}, {"x_axis": "A"}]
     out = []
     if tier == "thorough":
+        for s in ("/*", "[", '"', "'", "<", "//"):
+            for dp in (0, 5):
+                out.append({"decimal_places": dp, "comment_symbols": s, "line_endings": "os"})
         for dp in dps:
             for s in styles:
                 for e in endings:
@@ -272,7 +280,7 @@ def configs(tier):
     else:
         for dp in dps:
             out.append({"decimal_places": dp, "comment_symbols": ";", "line_endings": "os"})
-        for s in styles[1:]:
+        for s in styles[1:] + ["/*", "[", '"']:
             out.append({"decimal_places": 5, "comment_symbols": s, "line_endings": "os"})
         for e in endings[1:]:
             out.append({"decimal_places": 3, "comment_symbols": ";", "line_endings": e})
